@@ -202,9 +202,13 @@ def judge(spec, results):
             written = []
             for (f, path), i in zip(spec['outs'], ix['cli']):
                 o = r.op(i)
-                if o is None or o.rc != 0:
+                if o is None:
                     continue
                 data = o.out.get('file:' + path) if path else o.out.get('stdout', b'')
+                if o.rc != 0:
+                    if path and data is not None:
+                        add('C15_FAILED_WRITE_LEFT_FILE', 'the CLI failed and left a %d-byte %s file behind (%s)' % (len(data), f, o.out.get('stderr', b'')[:160].decode('latin-1').replace('\n', ' / ')))
+                    continue
                 written.append((f, path, data, None))
         else:
             d = r.op(ix['D'])
@@ -216,9 +220,14 @@ def judge(spec, results):
             written = []
             for (f, path), i in zip(spec['outs'], ix['W']):
                 o = r.op(i)
-                if o is None or o.rc != 0:
+                if o is None:
                     continue
                 data = o.out.get('file:' + path) if path else o.out.get('stdout', b'')
+                if o.rc != 0:
+                    # a failed write is a failure, not a malformed file - unless it left a file behind
+                    if path and data is not None:
+                        add('C15_FAILED_WRITE_LEFT_FILE', 'kalign_write_msa failed for a finished alignment and left a %d-byte %s file behind (%s)' % (len(data), f, (o.out.get('stderr', b'') or r.op(i).out.get('stdout', b''))[:160].decode('latin-1').replace('\n', ' / ')))
+                    continue
                 written.append((f, path, data, truth))
         for f, path, data, truth in written:
             if data is None:
